@@ -7,13 +7,14 @@ use std::fmt::Debug;
 use std::sync::{Arc, Mutex, OnceLock};
 use vf_core::{catch, Check, Gen, Outcome, Part};
 use vf_sbor::typed::{tree_is_rich, TypedGen};
-use vf_sbor::wire::{hexs, print_payload, Flavour};
+use vf_sbor::wire::{hexs, print_payload, print_payload_sites, Flavour, SiteKind, BASIC_KINDS};
 
 pub struct Entry {
     pub name: &'static str,
     pub flavour: Flavour,
     pub(crate) accepted_label: &'static str,
     pub(crate) rejected_label: &'static str,
+    pub(crate) low_label: &'static str,
     pub(crate) case: fn(&mut Gen, &Entry) -> Outcome,
     pub(crate) acceptance: fn(&mut Gen, &Entry) -> Outcome,
 }
@@ -96,8 +97,23 @@ where
         let Some(tree) = tg.payload(fixture.0, C::DEPTH) else {
             return Outcome::Discard;
         };
-        let mutation = tg.mutation;
-        (print_payload(C::FL, &tree), tree.render(), tree_is_rich(&tree), mutation)
+        let mut mutation = tg.mutation;
+        let (mut bytes, sites) = print_payload_sites(C::FL, &tree);
+        // "kind byte only": the tree is intact but one value-kind byte (of a value, or the
+        // element / key / value kind in a container header) is overwritten with another kind of
+        // the flavour. Drawn last, so an exhausted tape plants nothing.
+        if mutation.is_none() && g.chance(1, 6) {
+            let kind_sites: Vec<usize> = sites.iter().filter(|s| s.what == SiteKind::Kind).map(|s| s.off).collect();
+            if !kind_sites.is_empty() {
+                let off = kind_sites[g.index(kind_sites.len())];
+                let mut all = BASIC_KINDS.to_vec();
+                all.extend_from_slice(C::FL.custom_kinds());
+                let others: Vec<u8> = all.into_iter().filter(|k| *k != bytes[off]).collect();
+                bytes[off] = *g.pick(&others);
+                mutation = Some("kind byte only");
+            }
+        }
+        (bytes, tree.render(), tree_is_rich(&tree), mutation)
     };
     g.sample(|| format!("{} ({}) payload {} = {}{}", name, C::FL.name(), hexs(&payload[..payload.len().min(120)]), tree_text, mutation.map(|m| format!(" [defect: {}]", m)).unwrap_or_default()));
     if let Some(m) = mutation {
@@ -196,6 +212,17 @@ where
 /// obtains values through the decoder).
 const PROBES: usize = 48;
 
+fn sub_tape(seed: u64, index: u64, len: usize) -> Vec<u8> {
+    let mut out = Vec::with_capacity(len + 8);
+    let mut x = vf_core::splitmix(seed ^ index.wrapping_add(1).wrapping_mul(0xD6E8_FEB8_6659_FD93));
+    while out.len() < len {
+        x = vf_core::splitmix(x);
+        out.extend_from_slice(&x.to_le_bytes());
+    }
+    out.truncate(len);
+    out
+}
+
 fn acceptance_case<T, C>(g: &mut Gen, entry: &Entry, decode: fn(&[u8]) -> Result<T, DecodeError>) -> Outcome
 where
     T: ScryptoDescribe + PartialEq + Debug + 'static,
@@ -207,8 +234,14 @@ where
     let mut built = 0usize;
     let mut errors: Vec<String> = Vec::new();
     let mut first: Option<String> = None;
-    for _ in 0..PROBES {
-        let mut tg = TypedGen::new(g, fixture.1.v1(), C::FL);
+    // Every probe draws from its own pseudo-random sub-tape derived from one tape value, so the
+    // probes stay independent of each other even when the tape is short or exhausted (48 copies
+    // of the one minimal payload say nothing about the type).
+    let seed = g.u64();
+    for probe in 0..PROBES {
+        let sub = sub_tape(seed, probe as u64, 2048);
+        let mut sub_gen = Gen::new(&sub);
+        let mut tg = TypedGen::new(&mut sub_gen, fixture.1.v1(), C::FL);
         tg.max_len = 2;
         tg.budget = 80;
         tg.alt_kind_chance = (0, 1);
@@ -238,6 +271,9 @@ where
     g.count("acceptance probes accepted", accepted as u64);
     if accepted * 2 < built {
         g.label("under half of the schema-built payloads accepted");
+    }
+    if accepted * 4 < built {
+        g.label(entry.low_label);
     }
     g.set_nontrivial(accepted > 0);
     if accepted == 0 && built >= PROBES / 2 {
@@ -276,6 +312,7 @@ macro_rules! reg {
             flavour: vf_sbor::wire::Flavour::Scrypto,
             accepted_label: $crate::c22::leak(format!("accepted: {}", stringify!($t))),
             rejected_label: $crate::c22::leak(format!("rejected: {}", stringify!($t))),
+            low_label: $crate::c22::leak(format!("acceptance probe below 25%: {}", stringify!($t))),
             case: $crate::c22::scrypto_case::<$t>,
             acceptance: $crate::c22::scrypto_acceptance::<$t>,
         });
@@ -286,6 +323,7 @@ macro_rules! reg {
             flavour: vf_sbor::wire::Flavour::Manifest,
             accepted_label: $crate::c22::leak(format!("accepted: {} (manifest)", stringify!($t))),
             rejected_label: $crate::c22::leak(format!("rejected: {} (manifest)", stringify!($t))),
+            low_label: $crate::c22::leak(format!("acceptance probe below 25%: {} (manifest)", stringify!($t))),
             case: $crate::c22::manifest_case::<$t>,
             acceptance: $crate::c22::manifest_acceptance::<$t>,
         });
@@ -318,7 +356,7 @@ pub fn check() -> Check {
     Check::new(
         "C22",
         "Typed SBOR codecs agree with their generated schemas",
-        "For a registry of SBOR-derived types (transaction models V1/V2, manifest values and resource constraints, substate payloads of every native blueprint and object module, native events, receipt and state-update types, Merkle tree nodes, schema types) a payload is generated from the type's own generated schema (schema-directed: every variant, boundary numerics and lengths, node ids of the required entity class; one quarter carry one planted defect: wrong kind, extra / missing field, unknown variant, out-of-range numeric, length off by one, wrong entity class). Oracle: a payload built to conform validates; every payload the typed decoder accepts validates against the schema; for every decoded value v: encode(v) validates and decode(encode(v)) == v. A typed decoder rejecting a schema-valid payload is allowed (content checks) and counted per type; part acceptance builds 48 conforming payloads for one type and requires the typed decoder to accept at least one (schema and codec describing different shapes would otherwise go unseen, since values are only obtained through the decoder). Non-trivial = accepted value with >= 2 levels of nesting and an enum variant != 0 or a non-empty collection.",
+        "For a registry of SBOR-derived types (transaction models V1/V2, manifest values and resource constraints, substate payloads of every native blueprint and object module, native events, receipt and state-update types, Merkle tree nodes, schema types) a payload is generated from the type's own generated schema (schema-directed: every variant, boundary numerics and lengths, node ids of the required entity class; about a quarter carry one planted defect: wrong kind, a value-kind byte overwritten over an intact body, extra / missing field, unknown variant, out-of-range numeric, length off by one, wrong entity class). Oracle: a payload built to conform validates; every payload the typed decoder accepts validates against the schema; for every decoded value v: encode(v) validates and decode(encode(v)) == v. A typed decoder rejecting a schema-valid payload is allowed (content checks) and counted per type; part acceptance builds 48 conforming payloads for one type (each from its own pseudo-random sub-tape, so they are independent even on a short tape) and requires the typed decoder to accept at least one (schema and codec describing different shapes would otherwise go unseen, since values are only obtained through the decoder). Non-trivial = accepted value with >= 2 levels of nesting and an enum variant != 0 or a non-empty collection.",
     )
     .assume("values are obtained by decoding schema-directed payloads (no hand-written constructors); types whose decoder accepts few generated payloads are under-explored, see the per-type accepted/rejected classes")
     .assume("typed decoders may be stricter than schema validation (the converse of the second clause is not asserted)")
